@@ -993,13 +993,20 @@ def specs_for(tier):
             add(chain, 1024 if not chain.startswith("ppmd") and "ppmd" not in chain else 512, ops=ops, timeout=to)
         for chain in ("deflate", "deflate64", "zstd", "brotli", "lzma2", "bzip2", "copy"):
             for pattern in ("p3", "p251", "blk1m", "random"):
-                add(chain, 1024 if pattern != "random" or chain == "deflate64" else 512, pattern=pattern, timeout=to)
+                mb = 1024 if pattern != "random" or chain == "deflate64" else 512
+                if chain == "bzip2" and pattern != "random":
+                    mb = 384      # libbz2 compresses short periods at ~2.5 MB/s
+                if chain == "lzma2" and pattern == "random":
+                    mb = 256
+                add(chain, mb, pattern=pattern, timeout=to)
             for position in ("first", "middle", "last"):
                 add(chain, 1024, position=position, ops=(F, D), timeout=to)
         for chain in ("lzma2", "deflate", "copy", "zstd", "bzip2"):
             add(chain, 2048, ops=(F, FL), timeout=to)
         for chain in ("lzma2", "deflate", "copy", "zstd"):
             add(chain, 4096, timeout=to)
+        add("deflate64", 768, ops=(), timeout=to)      # write side only
+        add("ppmd", 768, ops=(), timeout=to)
         for chain in ("lzma2", "deflate", "copy"):
             add(chain, 1024, write_op="write_path", timeout=to)
             add(chain, 700, pattern="blk1m", write_op="write_path", timeout=to)
